@@ -232,7 +232,13 @@ func c04R2R3(p *Prog, r *Report) {
 		okN, why := nonNilAt(g, lk, in)
 		r.Check(okN, "C04.R3", fmt.Sprintf("device looked up in the card map #%d is checked before use", nl), p.InstrPos(in), why, "a device pointer taken from the card map with key `"+c05Describe(lk.Index, nil, 0)+"` is dereferenced without a nil test: when that card is not active (or absent) every block panics")
 	})
-	// row count provenance and recorded value
+	// row count provenance and recorded value; the scan may sit in a helper method of the source
+	for _, h := range recvHelpers(fn, 2) {
+		if h != fn && len(StoresTo(h, "LanceroSource", "externalTriggerLastState")) > 0 && len(StoresTo(fn, "LanceroSource", "externalTriggerLastState")) == 0 {
+			fn = h
+			r.Fn(FuncName(fn))
+		}
+	}
 	pc := NewPolyCtx(fn)
 	pc.G = true
 	var appended ssa.Value
@@ -465,16 +471,20 @@ func c04R5(p *Prog, r *Report) {
 		if !ok {
 			return
 		}
-		idx, isPhi := src.Index.(*ssa.Phi)
-		if !isPhi || len(idx.Edges) != 2 {
-			return
-		}
 		var seed, step Poly
-		for _, e := range idx.Edges {
-			if bo, ok := e.(*ssa.BinOp); ok && bo.Op == token.ADD && bo.X == ssa.Value(idx) {
-				step = pc.Of(bo.Y)
-			} else {
-				seed = pc.Of(e)
+		if idx, isPhi := src.Index.(*ssa.Phi); isPhi && len(idx.Edges) == 2 {
+			// running index: idx = phi(i, idx+nchan)
+			for _, e := range idx.Edges {
+				if bo, ok := e.(*ssa.BinOp); ok && bo.Op == token.ADD && bo.X == ssa.Value(idx) {
+					step = pc.Of(bo.Y)
+				} else {
+					seed = pc.Of(e)
+				}
+			}
+		} else if jp := pc.Of(dst.Index); len(jp) == 1 && len(jp.Symbols()) == 1 && jp[jp.Symbols()[0]] == 1 {
+			// closed form: buffer[i + j*nchan] with j the sample index of the destination
+			if c, rest, ok := pc.Of(src.Index).SplitLinear(jp.Symbols()[0]); ok && len(c) > 0 {
+				seed, step = rest, c
 			}
 		}
 		if seed == nil || step == nil {
